@@ -110,6 +110,11 @@ var settings = []setting{
 	{"SampleCacheConfig", "KeptSize", "int", "SampleCache.KeptSize", 20000, "", nil, nil},
 	{"SampleCacheConfig", "DroppedSize", "int", "SampleCache.DroppedSize", 2000000, "", nil, nil},
 	{"SampleCacheConfig", "SizeCheckInterval", "dur", "SampleCache.SizeCheckInterval", "20s", "", nil, nil},
+	// the alternative v1 spelling of the same group (configMeta.yaml: v1group SampleCacheConfig/SampleCache — v1 documented
+	// one name and read the other), so every alternative group name the converter claims to read is exercised
+	{"SampleCache", "KeptSize", "int", "SampleCache.KeptSize", 30000, "", nil, nil},
+	{"SampleCache", "DroppedSize", "int", "SampleCache.DroppedSize", 3000000, "", nil, nil},
+	{"SampleCache", "SizeCheckInterval", "dur", "SampleCache.SizeCheckInterval", "30s", "", nil, nil},
 
 	{"StressRelief", "Mode", "str", "StressRelief.Mode", "monitor", "", nil, nil},
 	{"StressRelief", "ActivationLevel", "int", "StressRelief.ActivationLevel", 80, "", nil, nil},
@@ -839,6 +844,9 @@ func main() {
 		for _, f := range []string{"toml", "yaml"} {
 			for i := range settings {
 				for j := i + 1; j < len(settings); j++ {
+					if settings[i].V2 == settings[j].V2 {
+						continue // two v1 spellings of one setting in one file contradict each other: not a valid v1 config
+					}
 					cfgCases = append(cfgCases, cfgCase{Set: []int{i, j}, Names: []string{settings[i].name(), settings[j].name()}, Format: f})
 				}
 			}
